@@ -22,6 +22,7 @@ type Net struct {
 	ids    map[int]peer.ID
 	hosts  map[int]host.Host
 	cut    map[[2]int]bool // pairs currently partitioned
+	dead   map[int]bool    // killed peers: never linked again until AddPeer creates the successor
 	defLat time.Duration
 }
 
@@ -29,7 +30,7 @@ func NewNet(run *Run, latency time.Duration) *Net {
 	ctx, cancel := context.WithCancel(context.Background())
 	mn := mocknet.New(ctx)
 	mn.SetLinkDefaults(mocknet.LinkOptions{Latency: latency})
-	return &Net{run: run, ctx: ctx, cancel: cancel, MN: mn, ids: map[int]peer.ID{}, hosts: map[int]host.Host{}, cut: map[[2]int]bool{}, defLat: latency}
+	return &Net{run: run, ctx: ctx, cancel: cancel, MN: mn, ids: map[int]peer.ID{}, hosts: map[int]host.Host{}, cut: map[[2]int]bool{}, dead: map[int]bool{}, defLat: latency}
 }
 
 // Close cancels the mocknet context (there is no Mocknet.Close).
@@ -45,14 +46,23 @@ func (n *Net) AddPeer(i int) host.Host {
 	if err != nil {
 		panic(err)
 	}
+	if _, replacing := n.ids[i]; replacing {
+		for j, q := range n.ids {
+			if j != i {
+				n.MN.DisconnectPeers(pid, q)
+				n.MN.UnlinkPeers(pid, q) // links hold the old incarnation's network object
+			}
+		}
+	}
 	h, err := n.MN.AddPeer(priv, addr)
 	if err != nil {
 		panic(err)
 	}
 	n.ids[i] = pid
 	n.hosts[i] = h
+	delete(n.dead, i)
 	for j := range n.ids {
-		if j != i && !n.cut[pair(i, j)] {
+		if j != i && !n.cut[pair(i, j)] && !n.dead[j] {
 			if _, err := n.MN.LinkPeers(pid, n.ids[j]); err != nil {
 				panic(err)
 			}
@@ -83,7 +93,7 @@ func (n *Net) Index(p peer.ID) int {
 
 // Connect dials a<->b (no-op when partitioned).
 func (n *Net) Connect(a, b int) error {
-	if n.cut[pair(a, b)] {
+	if n.cut[pair(a, b)] || n.dead[a] || n.dead[b] {
 		return fmt.Errorf("partitioned")
 	}
 	_, err := n.MN.ConnectPeers(n.ids[a], n.ids[b])
@@ -153,6 +163,9 @@ func (n *Net) Heal() {
 		for _, b := range ks[x+1:] {
 			if n.cut[pair(a, b)] {
 				delete(n.cut, pair(a, b))
+				if n.dead[a] || n.dead[b] {
+					continue
+				}
 				if _, err := n.MN.LinkPeers(n.ids[a], n.ids[b]); err == nil {
 					n.MN.ConnectPeers(n.ids[a], n.ids[b])
 				}
@@ -168,11 +181,23 @@ func (n *Net) HealPeer(a int) {
 	for _, b := range n.sortedIdx() {
 		if n.cut[pair(a, b)] {
 			delete(n.cut, pair(a, b))
+			if n.dead[a] || n.dead[b] {
+				continue
+			}
 			if _, err := n.MN.LinkPeers(n.ids[a], n.ids[b]); err == nil {
 				n.MN.ConnectPeers(n.ids[a], n.ids[b])
 			}
 		}
 	}
+}
+
+// Kill removes peer a from the network for good: its links are cut and are
+// not restored by Heal. Only AddPeer (the successor incarnation) brings the
+// identity back. Mocknet finds links by peer ID, so a killed process must be
+// fully stopped before its successor is added.
+func (n *Net) Kill(a int) {
+	n.Isolate(a)
+	n.dead[a] = true
 }
 
 // Reset closes the connection a-b but keeps the link (streams die; both sides
@@ -185,3 +210,11 @@ func (n *Net) Reset(a, b int) {
 
 // IsCut reports whether a and b are partitioned.
 func (n *Net) IsCut(a, b int) bool { return n.cut[pair(a, b)] }
+
+// Uncut forgets the partitions of peer a without re-creating links (used right
+// before AddPeer replaces a killed peer: AddPeer links the new incarnation).
+func (n *Net) Uncut(a int) {
+	for _, b := range n.sortedIdx() {
+		delete(n.cut, pair(a, b))
+	}
+}
